@@ -32,6 +32,8 @@ func specC13() *propertySpec {
 			{"C13-R3", "reads-only-what-it-consumes: bufBitStream.buf is touched only by drawBits and the constructor; one word per call; overrun ⇒ invalidData", func(r *Run) { ruleC04R3buf(r); ruleC03R4(r) }},
 			{"C13-R4", "total: panics converted (recover census), bracketed invocation, loops of the generation closure make progress", func(r *Run) { ruleC02R4(r); ruleC10R1(r); ruleC03R5(r) }},
 			{"C13-R5", "deterministic: nondeterminism census of the generation closure", func(r *Run) { nondetCensus(r, "generation", []string{"<generation>"}, false) }},
+			{"C13-R6", "discarded-attempt-may-be-empty: the 'group did not use any data' assertion of endGroup cannot fire for a discarded group, in either recording mode: an attempt that ran out of input (or skipped) before its first draw is rejected, not reported as a failure", ruleEndGroupAssertExempt},
+			{"C13-R7", "same-generator-for-every-input: the fuzz target is called many times in one process with one set of generators: the draws are a function of the input bytes only if no draw stores through or hands out generator-owned storage (shared with C15-R3)", ruleC15R3},
 		},
 	}
 }
@@ -772,7 +774,6 @@ func ruleContextStoreRecheck(r *Run) {
 	}
 }
 
-
 // ruleC14R7: acquire/release pairing of T.mu on all exits.
 func ruleC14R7(r *Run) {
 	p := r.P
@@ -936,4 +937,50 @@ func ruleGuardedSliceEscape(r *Run) {
 			"the slice loaded from T."+fa.Field+" is "+outside+" after t.mu was released while T."+fa.Field+" still refers to the same backing array: a concurrent Cleanup appends into it and overwrites entries that are still pending (a cleanup is lost, another runs twice)")
 	}
 	r.Floor("loads of guarded slice fields of T", n, 3)
+}
+
+// ruleEndGroupAssertExempt: every assertion in endGroup holds trivially when discard is true.
+func ruleEndGroupAssertExempt(r *Run) {
+	p := r.P
+	fn := r.MustFn("(*recordedBits).endGroup")
+	if fn == nil {
+		return
+	}
+	notDiscard := func(facts []rel) bool {
+		return holds(facts, "$discard", "==", "false") || holds(facts, "$discard", "!=", "true")
+	}
+	var exempt func(v ssa.Value, facts []rel, d int) bool
+	exempt = func(v ssa.Value, facts []rel, d int) bool {
+		if notDiscard(facts) {
+			return true
+		}
+		if d > 8 {
+			return false
+		}
+		v = p.resolve(v)
+		switch x := v.(type) {
+		case *ssa.Const:
+			b, ok := constBool(x)
+			return ok && b
+		case *ssa.Phi:
+			for i, e := range x.Edges {
+				pred := x.Block().Preds[i]
+				if !exempt(e, p.facts(pred.Instrs[len(pred.Instrs)-1]), d+1) {
+					return false
+				}
+			}
+			return true
+		case *ssa.Parameter:
+			return p.expr(x) == "$discard"
+		case ssa.Instruction:
+			return notDiscard(p.facts(x))
+		}
+		return false
+	}
+	n := 0
+	for _, cs := range p.callsTo(fn, "assertf", "assert") {
+		n++
+		r.Check("(*recordedBits).endGroup#assert-exempts-discard", cs.Instr.Pos(), exempt(cs.Arg(0), p.facts(cs.Instr), 0), "the assertion holds trivially for a discarded group", "an assertion of endGroup ("+p.expr(cs.Arg(0))+") can fail for a discarded group: an attempt that is rejected before its first draw (input exhausted inside Custom/Filter, Skip before drawing) panics with an assertion, which is reported as a failure of the test case instead of a skip — and only on the stream kind this branch serves")
+	}
+	r.Floor("assertions in endGroup", n, 1)
 }
